@@ -257,7 +257,7 @@ fn run_case(
     cap: usize,
     progs: &[Vec<(String, i64)>],
     rclose: i64,
-    sched: &mut dyn FnMut(&Sys) -> Option<usize>,
+    sched: &mut dyn FnMut(&Sys) -> Option<(usize, bool)>,
     expect: Option<&Vec<Value>>,
     tr: &mut Trace,
 ) -> Out {
@@ -309,10 +309,18 @@ fn run_case(
     };
     // scheduled part
     let mut alive = true;
+    let mut skipped = 0usize;
     while alive && steps < budget {
         match sched(&sys) {
-            Some(t) => {
+            Some((t, spurious_ok)) => {
                 if t >= sys.st.len() || sys.st[t] == St::Done {
+                    continue;
+                }
+                // a poll the schedule's author (the model) considers due, but for which the real
+                // channel has not woken the task: an executor would not make it -- skip it, so
+                // that a lost wake-up is not masked by the replay
+                if !spurious_ok && !sys.runnable(t) {
+                    skipped += 1;
                     continue;
                 }
                 alive = do_step(&mut sys, t, tr, &mut steps);
@@ -332,6 +340,9 @@ fn run_case(
             }
             None => break,
         }
+    }
+    if skipped > 0 && drift.is_none() {
+        drift = Some(json!({"case":case_id,"skipped_polls_not_due_in_the_real_channel":skipped}));
     }
     if let (Some(exp), None) = (expect, &drift) {
         if steps != exp.len() {
@@ -370,7 +381,10 @@ fn main() {
                 let cap = c["cap"].as_u64().unwrap() as usize;
                 let rclose = c["rclose"].as_i64().unwrap();
                 let exp: Vec<Value> = c["steps"].as_array().cloned().unwrap_or_default();
-                let order: Vec<usize> = exp.iter().map(|s| s["t"].as_u64().unwrap() as usize).collect();
+                let order: Vec<(usize, bool)> = exp
+                    .iter()
+                    .map(|s| (s["t"].as_u64().unwrap() as usize, s["sp"].as_bool().unwrap_or(true)))
+                    .collect();
                 let mut k = 0usize;
                 let mut sched = |_s: &Sys| {
                     let r = order.get(k).copied();
@@ -436,12 +450,12 @@ fn main() {
                     let waiting: Vec<usize> =
                         (0..nt).filter(|&t| s.st[t] == St::Wait && !s.flag(t)).collect();
                     if !waiting.is_empty() && r2.below(100) < spur_pct {
-                        return Some(waiting[r2.below(waiting.len() as u64) as usize]);
+                        return Some((waiting[r2.below(waiting.len() as u64) as usize], true));
                     }
                     if runnable.is_empty() {
                         return None;
                     }
-                    Some(runnable[r2.below(runnable.len() as u64) as usize])
+                    Some((runnable[r2.below(runnable.len() as u64) as usize], false))
                 };
                 let o = run_case(i + 1, cap, &progs, rclose, &mut sched, None, &mut tr);
                 cases += 1;
